@@ -344,6 +344,8 @@ def enum_terms(case, res):
     if res["exc"] is not None or not all(math.isfinite(x) for x in _flat(res["out"])):
         return ["false"], ["false"]
     mt = []
+    # SimpleRandomSamplingWithoutReplacement computes its log-partition from float32 log-factorials
+    tol = Fr(1, 10 ** 5) if case["dtype"] == "srswor" else TOL
     for j in range(case["B"]):
         if case["dtype"] == "srswor":
             C = len(_srswor_support(case["total"], case["given"]))
@@ -358,7 +360,7 @@ def enum_terms(case, res):
         for d in range(K + 1):
             dv = dvars[d] if d < K else _zero_like(vars_)
             impl = (frf(res["out"][j][0]), frf(res["out"][j][1][j * K + d] if d < K else res["out"][j][2][0]))
-            mt.append(f"dclose {cq(TOL)} (enumerate_est (mkjoint {cllq(vars_)} {cllq(dv)}) "
+            mt.append(f"dclose {cq(tol)} (enumerate_est (mkjoint {cllq(vars_)} {cllq(dv)}) "
                       f"(combine {clq(fval)} {clq(fders[d])})) {cdual(impl)}")
     return mt, []  # the estimate is unique: a disagreement with the (proved exact) model is the failure
 
@@ -614,6 +616,8 @@ def dist_run_impl(case):
     B, V = case["B"], case["V"]
     bern = case["dtype"] == "bern"
     th = _theta_tensor(case, "theta").detach()
+    if not bern and case["param"] == "probs":
+        th = th * case.get("pscale", 1)  # unnormalised probabilities: the constructor divides by their sum
     shape = (B,) if bern else (B, V)
     res = {"exc": None}
     try:
@@ -732,7 +736,7 @@ def gen_dist(rng):
         V = 2 if dtype == "bern" else rng.choice([2, 3, 4])
         B = rng.choice([1, 2])
         case = {"fam": "dist", "dtype": dtype, "V": V, "B": B, "n": 1, "param": rng.choice(["probs", "logits"]),
-                "shift": rng.randint(-6, 6)}
+                "shift": rng.randint(-6, 6), "pscale": rng.choice([1, 1, 2, 0.5, 4])}
         case["theta"] = _gen_theta(rng, dtype, B, 1, V)
         m = B * (1 if dtype == "bern" else V)
         case["u"] = [rng.randint(1, 63) for _ in range(m)]
@@ -921,8 +925,8 @@ def gen_comb(rng, op=None):
             given[j] = total[j] + 1  # malformed: RuntimeError
         elif rng.random() < 0.06 and max(total) > 0:
             out = max(total) - 1  # malformed: RuntimeError
-        if out == 0:
-            out = 1  # (total = 0 with out_size = 0: see report, reshape of an empty tensor)
+        if max(total) == 0 and rng.random() < 0.5:
+            out = 0  # empty population: the one legal sample is the empty vector
         case.update(total=total, given=given, out_size=out, via=rng.choice(["func", "func", "dist"]),
                     us=[[rng.randint(0, 63) for _ in range(B)] for _ in range(max(out, 1))])
         if case["via"] == "dist" and (any(g > t for g, t in zip(given, total)) or out < max(total)):
@@ -1064,7 +1068,26 @@ def gen_est(rng, kind=None, small=False):
             case["given"] = [rng.choice([i for i in range(nout) if case["same"] or case["w"][j][i] > 0]) for j in range(B)]
             case["given_lead"] = rng.random() < 0.5
         case["us"] = [[rng.randint(0, 63) for _ in range(B)] for _ in range(N)]
+        while not _imh_margin_ok(case):
+            case["us"] = [[rng.randint(0, 63) for _ in range(B)] for _ in range(N)]
     return case
+
+
+def _imh_margin_ok(case):
+    """no accept decision u * w_last < w_cur within 1e-4 of equality (log u is computed in float32)"""
+    if case["same"]:
+        return True
+    for j in range(case["B"]):
+        qv = _var_tables(case, "theta", j)[0]
+        qj = [math.prod(c) for c in itertools.product(*qv)]
+        w = [Fr(case["w"][j][i], 4) / qj[i] for i in range(len(qj))]
+        for row in case["us"]:
+            u = Fr(row[j], 64)
+            for wl in w:
+                for wc in w:
+                    if wl > 0 and wc > 0 and abs(u * wl - wc) <= wc / 10 ** 4:
+                        return False
+    return True
 
 
 # =========================================================================================
@@ -1335,7 +1358,9 @@ def _exhaustive_est(tier):
 def _exhaustive_srswor(tmax):
     """every (total, given) with total <= tmax and every Bernoulli outcome script: u = 0 takes a one whenever
     p > 0, u = 63/64 refuses unless p = 1; all scripts over {0, 63/64} as batch elements of one call"""
-    cases = []
+    cases = [{"fam": "comb", "op": "srswor", "total": [0, 0], "given": [0, 0], "out_size": 0, "via": via, "us": [[0, 0]]}
+             for via in ("func", "dist")]
+    cases += [{"fam": "comb", "op": "srswor", "total": [0], "given": [0], "out_size": 2, "via": "func", "us": [[5], [60]]}]
     for T in range(1, tmax + 1):
         for L in range(0, T + 1):
             scripts = list(itertools.product([0, 63], repeat=T))
@@ -1351,7 +1376,7 @@ def gen_cases(chk):
     cases = []
     ex = _exhaustive_est(chk.tier)
     if quick:
-        ex = ex[::3]
+        ex = ex[::2]
     for c in ex:
         c["stream"] = "exhaustive-slice" if quick else "exhaustive"
     cases += ex
@@ -1374,7 +1399,7 @@ def gen_cases(chk):
         c["stream"] = "corpus"
         cases.append(c)
     rng = chk.rng
-    n_est, n_dist, n_comb, n_grid = (45, 30, 160, 8) if quick else (700, 400, 3000, 60)
+    n_est, n_dist, n_comb, n_grid = (200, 80, 600, 16) if quick else (600, 400, 3000, 60)
     for _ in range(n_est):
         c = gen_est(rng, small=quick)
         c["stream"] = "random"
@@ -1422,8 +1447,9 @@ def run(chk, cases=None):
         stream = c.pop("stream", "random")
         try:
             ev = evaluate(c)
-        except AssertionError as e:
-            ev = dict(model=["false"], spec=[], rel=[("harness assertion: " + str(e)[:200], False)], unique=False, impl=None)
+        except Exception as e:  # an output of unexpected shape/type: not a legal outcome for any case here
+            ev = dict(model=["false"], spec=[], unique=False, impl={"exc": "harness: " + repr(e)[:300]},
+                      rel=[("implementation output could not be interpreted (%s: %s)" % (type(e).__name__, str(e)[:200]), False)])
         evs.append(ev)
         chk.note_case(c, nontrivial(c), stream)
         chk.count(_key(c))
